@@ -14,6 +14,7 @@ import z3
 
 from . import core
 from .builtins_model import VIter, VKey, denum, dpos
+from .fl import Fl
 from .core import (
     NONE,
     CDict,
@@ -258,6 +259,7 @@ def family_run(X, st, desc, body_fn):
     base_pc = len(sb.pc)
     sb.pc.append(desc.guard(k))
     sb.readlog = []
+    sb.arrlog = []
     n_foralls = len(st.foralls)
     outs = body_fn(sb, desc.item(k))
     outcomes = []
@@ -300,10 +302,24 @@ def _obj_writes(st_after, st_before):
             continue
         if isinstance(o, Inst):
             raise Unsupported("scalar field write inside a pointwise loop body")
+        from . import npmodel
+
+        if isinstance(o, npmodel.ArrO):
+            # a scratch array: allowed when every iteration overwrites it completely before reading it
+            first = next((w for (oid2, w) in (st_after.arrlog or []) if oid2 == oid), None)
+            if first != "kill":
+                raise Unsupported("array carried across loop iterations")
+            res.append((oid, [("scratch", None)]))
+            continue
         if isinstance(o, CList) and isinstance(o0, CList) and not o.is_tuple:
             n0 = len(o0.items)
             if len(o.items) == n0 + 1 and all(x is y for x, y in zip(o.items, o0.items)):
                 res.append((oid, [("append", o.items[-1])]))
+                continue
+            if len(o.items) == n0:
+                # the same loop-independent value written by every iteration (e.g. shape[0] = batch length)
+                changed = [(i, x) for i, (x, y) in enumerate(zip(o.items, o0.items)) if x is not y]
+                res.append((oid, [("idempotent", changed)]))
                 continue
             raise Unsupported("list changed inside a family body (only a single append per iteration is modelled)")
         if isinstance(o, (LList, LDict)):
@@ -404,6 +420,29 @@ def apply_family(X, run, st, normal_conds, extra_guard=None):
             for key_t, val in ws:
                 if isinstance(key_t, str) and key_t == "append":
                     continue
+                if isinstance(key_t, str) and key_t == "idempotent":
+                    items = list(st.heap[oid].items)
+                    for idx_, x in val:
+                        terms = [x.t] if hasattr(x, "t") else []
+                        if any(contains_const(t, k) for t in terms):
+                            raise Unsupported("loop writes a key-dependent value to a fixed list slot")
+                        nonempty = desc.length > 0 if desc.length is not None else z3.BoolVal(True)
+                        items[idx_] = vite(nonempty, x, items[idx_])
+                    st.heap[oid] = CList(items, is_tuple=st.heap[oid].is_tuple)
+                    o0 = st.heap[oid]
+                    continue
+                if isinstance(key_t, str) and key_t == "scratch":
+                    from . import npmodel
+
+                    junk = z3.Function(f"scratch!{core.uid()}", z3.IntSort(), z3.BoolSort())
+                    a0 = st.heap[oid]
+                    if a0.dtype == "bool":
+                        st.heap[oid] = npmodel.ArrO(a0.length, lambda i, junk=junk: VBool(junk(i)), "bool")
+                    else:
+                        jr = z3.Function(f"scratchr!{core.uid()}", z3.IntSort(), z3.RealSort())
+                        st.heap[oid] = npmodel.ArrO(a0.length, lambda i, jr=jr: VFl(Fl.fin(jr(i))), a0.dtype)
+                    o0 = st.heap[oid]
+                    continue
                 if not contains_const(key_t, k):
                     raise Unsupported("collection write at a loop-independent key")
                 if isinstance(o0, CDict):
@@ -442,6 +481,13 @@ def apply_family(X, run, st, normal_conds, extra_guard=None):
                     st.add(newlen >= prev.length())
                     o0 = LDict(present, val_, newlen, keykind=prev.keykind)
             st.heap[oid] = o0
+    # vectorised child calls made in the body, kept as a family over the loop key
+    for oc in run.outcomes:
+        if oc.kind != "normal":
+            continue
+        calls = oc.st.np_calls[len(run.base.np_calls) :]
+        if calls:
+            st.np_calls = st.np_calls + [("family", k, desc, oc.cond, calls)]
     # allocation bookkeeping: new refs created in the body are new for every key
     for oc in run.outcomes:
         for r in oc.st.new_refs[len(run.base.new_refs) :]:
@@ -501,8 +547,8 @@ def family_finish(X, run, after_normal):
             Xs.set_view(z3.substitute(ref_t, (k, w)), z3.substitute(view_t, (k, w)))
         for oid, ws in _obj_writes(oc.st, run.base):
             for key_t, val in ws:
-                if isinstance(key_t, str) and key_t == "append":
-                    continue  # the partially built local list is dead after the raise
+                if isinstance(key_t, str) and key_t in ("append", "scratch", "idempotent"):
+                    continue  # the partially built local list / scratch array is dead after the raise
                 o0 = Xs.heap[oid]
                 if isinstance(o0, CDict):
                     o0 = X.B.cdict_to_ldict(Xs, o0)
